@@ -3,7 +3,7 @@
 //
 //   space <space>                 -> ok
 //   interp <from> <to> <t>        -> r <state> | a1 <state> | a2 <state> | sb b | ef b | et b | sbf b | sbt b
-//                                    | dfr <d> | dft <d> | drt <d> | ext <d>
+//                                    | dfr <d> | dft <d> | drt <d> | ext <d> | enf b
 //        r  = interpolate(from, to, t, out)   with a distinct output state
 //        a1 = interpolate(f, to, t, f)        output aliases `from` (f is a copy of from)
 //        a2 = interpolate(from, g, t, g)      output aliases `to`   (g is a copy of to)
@@ -12,7 +12,7 @@
 //   interp2 <from> <to> <s> <u>   -> s3 <state> | r <state> | direct <state> | ra <state> | d <d> | sbs3 b | ext <d>
 //        s3 = interpolate(from,to,s); r = interpolate(s3,to,u); direct = interpolate(from,to,s+(1-s)*u);
 //        ra = interpolate(s3',to,u,s3') aliased as StateSpace::sanityChecks does; d = distance(r, direct)
-//        (`-` instead of a distance when one of its arguments is out of bounds: SO(2)/SO(3) distance asserts)
+//        (distances of out-of-bounds results are taken after enforceBounds on a copy, flagged `enf 1`)
 // `oob-input` when from or to does not satisfy the bounds (outside the property's quantifier).
 // States are printed as their leaf values (doubles as u64 bit patterns).  No hooks in /repo.
 #include "common/spaces.h"
@@ -25,13 +25,34 @@ static std::string b01(bool b)
     return b ? "1" : "0";
 }
 
-// SO(2)/SO(3) distance BOOST_ASSERTs satisfiesBounds of both arguments: never call it on a state that
-// is out of bounds (an out-of-bounds interpolation result is reported through `sb 0`, not by an abort).
+// SO(2)/SO(3) distance BOOST_ASSERTs satisfiesBounds of both arguments, so distance is never called on
+// a state that is out of bounds: such a state (an out-of-bounds interpolation result, reported through
+// `sb 0`) is first copied and passed through the space's own enforceBounds (+pi -> -pi, a coordinate a
+// few ulps outside a box -> the bound); `enf 1` on the line says that this happened.
+static bool enforced = false;
 static std::string dist(const ob::StateSpacePtr &sp, const ob::State *a, const ob::State *b)
 {
-    if (!sp->satisfiesBounds(a) || !sp->satisfiesBounds(b))
-        return "-";
-    return vp::bits(sp->distance(a, b));
+    ob::State *ca = nullptr, *cb = nullptr;
+    if (!sp->satisfiesBounds(a))
+    {
+        ca = sp->cloneState(a);
+        sp->enforceBounds(ca);
+        a = ca;
+        enforced = true;
+    }
+    if (!sp->satisfiesBounds(b))
+    {
+        cb = sp->cloneState(b);
+        sp->enforceBounds(cb);
+        b = cb;
+        enforced = true;
+    }
+    std::string out = (sp->satisfiesBounds(a) && sp->satisfiesBounds(b)) ? vp::bits(sp->distance(a, b)) : "-";
+    if (ca)
+        sp->freeState(ca);
+    if (cb)
+        sp->freeState(cb);
+    return out;
 }
 
 struct Tmp
@@ -94,6 +115,7 @@ int main()
                 sp->copyState(g.s, to.s);
                 // poison the distinct output so that a body that forgets to write a field shows up
                 sp->copyState(out.s, to.s);
+                enforced = false;
                 sp->interpolate(from.s, to.s, tt, out.s);
                 sp->interpolate(f.s, to.s, tt, f.s);
                 sp->interpolate(from.s, g.s, tt, g.s);
@@ -104,7 +126,7 @@ int main()
                           << b01(sp->satisfiesBounds(to.s)) << " | dfr " << dist(sp, from.s, out.s)
                           << " | dft " << dist(sp, from.s, to.s) << " | drt "
                           << dist(sp, out.s, to.s) << " | ext " << vp::bits(sp->getMaximumExtent())
-                          << "\n";
+                          << " | enf " << b01(enforced) << "\n";
             }
             else if (t[0] == "interp2" && sp)
             {
@@ -124,6 +146,7 @@ int main()
                 sp->copyState(s3.s, from.s);
                 sp->copyState(r.s, from.s);
                 sp->copyState(direct.s, from.s);
+                enforced = false;
                 sp->interpolate(from.s, to.s, s, s3.s);
                 sp->interpolate(s3.s, to.s, u, r.s);
                 sp->interpolate(from.s, to.s, s + (1.0 - s) * u, direct.s);
@@ -133,7 +156,7 @@ int main()
                           << vp::showState(sp, direct.s) << " | ra " << vp::showState(sp, ra.s) << " | d "
                           << dist(sp, r.s, direct.s) << " | sbs3 " << b01(sp->satisfiesBounds(s3.s)) << " | sbr "
                           << b01(sp->satisfiesBounds(r.s)) << " | sbd " << b01(sp->satisfiesBounds(direct.s))
-                          << " | ext " << vp::bits(sp->getMaximumExtent()) << "\n";
+                          << " | ext " << vp::bits(sp->getMaximumExtent()) << " | enf " << b01(enforced) << "\n";
             }
             else
                 std::cout << "bad-op\n";
